@@ -193,7 +193,7 @@ def dimensionPreserving : List String := [
   "numpy.append", "numpy.clip", "numpy.unique", "numpy.unique_values", "numpy.intersect1d", "numpy.union1d",
   "numpy.setdiff1d", "numpy.setxor1d", "numpy.linalg.diagonal",
   -- reshaping / joining / copying
-  "numpy.reshape", "numpy.ravel", "numpy.squeeze", "numpy.transpose", "numpy.permute_dims", "numpy.matrix_transpose",
+  "numpy.reshape", "numpy.ravel", "numpy.squeeze", "numpy.transpose", "numpy.matrix_transpose",
   "numpy.linalg.matrix_transpose", "numpy.swapaxes", "numpy.moveaxis", "numpy.rollaxis", "numpy.expand_dims",
   "numpy.atleast_1d", "numpy.atleast_2d", "numpy.atleast_3d", "numpy.broadcast_to", "numpy.broadcast_arrays",
   "numpy.flip", "numpy.fliplr", "numpy.flipud", "numpy.roll", "numpy.rot90", "numpy.repeat", "numpy.tile", "numpy.resize",
